@@ -151,8 +151,10 @@ __CPROVER_ensures(cv_words[0] == SPEC_LOAD32(bytes_out, 0) && cv_words[1] == SPE
 
 /* *_fn: output i (32 bytes) is an uninterpreted function of the WHOLE row i (64*blocks bytes, for
  * blocks <= 16: the only values blake3.c uses are 1 and 16), the 8 key words, counter (+ i iff
- * increment_counter), flags, flags_start, flags_end and blocks; every output byte via the witness */
-#define ROW_DISJ(inputs, n, i, sz, out) ((n) > (i) ==> VERIF_DISJ(out, 32 * (n), (inputs)[i], sz))
+ * increment_counter), flags, flags_start, flags_end and blocks; every output byte via the witness.
+ * The output must lie in another OBJECT than rows, key and pointer array (true of every call in
+ * blake3.c, checked at each of them): the clause reads the inputs in the post-state */
+#define ROW_DISJ(inputs, n, i, sz, out) ((n) > (i) ==> !__CPROVER_same_object(out, (inputs)[i]))
 #define ROWS16_DISJ(inputs, n, sz, out)                                                  \
   (ROW_DISJ(inputs, n, 0, sz, out) && ROW_DISJ(inputs, n, 1, sz, out) && ROW_DISJ(inputs, n, 2, sz, out) && \
    ROW_DISJ(inputs, n, 3, sz, out) && ROW_DISJ(inputs, n, 4, sz, out) && ROW_DISJ(inputs, n, 5, sz, out) && \
@@ -164,9 +166,9 @@ __CPROVER_ensures(cv_words[0] == SPEC_LOAD32(bytes_out, 0) && cv_words[1] == SPE
   VBYTE(VERIF_UF_ROW((inputs)[i], blocks, key, (counter) + ((inc) ? (uint64_t)(i) : (uint64_t)0), flags, fs, fe), j)
 #define HASH_MANY_FN                                                                     \
   FN(__CPROVER_requires(num_inputs == 0 ||                                               \
-       (ROWS16_DISJ(inputs, num_inputs, 64 * blocks, out) && VERIF_DISJ(out, 32 * num_inputs, key, 32) && \
-        VERIF_DISJ(out, 32 * num_inputs, inputs, num_inputs * sizeof(const uint8_t *))))) \
-  FN(__CPROVER_ensures((blocks <= 16 && VW_IN(out, 32 * num_inputs)) ==>                 \
+       (ROWS16_DISJ(inputs, num_inputs, 64 * blocks, out) && !__CPROVER_same_object(out, key) &&  \
+        !__CPROVER_same_object(out, inputs))))                                           \
+  FN(__CPROVER_ensures((blocks <= VERIF_HM_MAXBLOCKS && VW_IN(out, 32 * num_inputs)) ==>                 \
        VW_AT(out) == VERIF_HM_ROW_BYTE(inputs, blocks, key, counter, increment_counter, flags, \
                                        flags_start, flags_end, VW_IDX(out) / 32, VW_IDX(out) % 32)))
 
@@ -737,6 +739,50 @@ HASHER_UPDATE_CONTRACT
 ;
 #endif
 
+/* *_fn: the root node as a closed expression over the hasher's fields, for stacks of at most
+ * VERIF_FIN_MAXSTACK = 3 entries (a fold has no closed form for an unbounded stack):
+ *   C        = the chunk-state node (cv, buf, buf_len, chunk_counter, flags | CHUNK_START? | CHUNK_END)
+ *   P(l, r)  = UFcip(key, l ++ r, 64, 0, flags | PARENT)            a parent's chaining value
+ *   len == 0                    root = C
+ *   bytes pending, len == 1..3  root = parent(S0, CV(C)), parent(S0, P(S1, CV(C))), parent(S0, P(S1, P(S2, CV(C))))
+ *   none pending,  len == 2, 3  root = parent(S0, S1),    parent(S0, P(S1, S2))
+ * and byte i of the output is byte (seek + i) % 64 of UFxof(root fields, counter (seek + i) / 64, flags | ROOT) */
+#define VERIF_FIN_MAXSTACK 3
+#define VFIN_S(h, k) V256(&(h)->cv_stack[32 * (k)])
+#define VFIN_PAIR(l, r) ((verif_bv512)(l) | ((verif_bv512)(r) << 256))
+#define VFIN_CFLAGS(h)                                                                   \
+  ((uint8_t)((h)->chunk.flags | ((h)->chunk.blocks_compressed == 0 ? CHUNK_START : 0) | CHUNK_END))
+#define VFIN_CVC(h)                                                                      \
+  VERIF_UF_CIP((h)->chunk.cv, (h)->chunk.buf, (h)->chunk.buf_len, (h)->chunk.chunk_counter, VFIN_CFLAGS(h))
+#define VFIN_P(h, l, r)                                                                  \
+  __CPROVER_uninterpreted_blake3_cip(V256((h)->key), VFIN_PAIR(l, r), (uint8_t)64, (uint64_t)0, \
+                                     (uint8_t)((h)->chunk.flags | PARENT))
+#define VFIN_ROOTP(h, l, r, ctr)                                                         \
+  __CPROVER_uninterpreted_blake3_xof(V256((h)->key), VFIN_PAIR(l, r), (uint8_t)64, (uint64_t)(ctr), \
+                                     (uint8_t)((h)->chunk.flags | PARENT | ROOT))
+#define VFIN_ROOT(h, ctr)                                                                \
+  ((h)->cv_stack_len == 0                                                                \
+     ? VERIF_UF_XOF((h)->chunk.cv, (h)->chunk.buf, (h)->chunk.buf_len, ctr, VFIN_CFLAGS(h) | ROOT) \
+   : CS_LEN(&(h)->chunk) > 0                                                             \
+     ? ((h)->cv_stack_len == 1 ? VFIN_ROOTP(h, VFIN_S(h, 0), VFIN_CVC(h), ctr)           \
+        : (h)->cv_stack_len == 2 ? VFIN_ROOTP(h, VFIN_S(h, 0), VFIN_P(h, VFIN_S(h, 1), VFIN_CVC(h)), ctr) \
+        : VFIN_ROOTP(h, VFIN_S(h, 0), VFIN_P(h, VFIN_S(h, 1), VFIN_P(h, VFIN_S(h, 2), VFIN_CVC(h))), ctr)) \
+     : ((h)->cv_stack_len == 2 ? VFIN_ROOTP(h, VFIN_S(h, 0), VFIN_S(h, 1), ctr)          \
+        : VFIN_ROOTP(h, VFIN_S(h, 0), VFIN_P(h, VFIN_S(h, 1), VFIN_S(h, 2)), ctr)))
+#define VROOT_CTR(seek, i) ((seek) / 64 + ((seek) % 64 + (uint64_t)(i)) / 64)
+#define VROOT_OFF(seek, i) (((seek) % 64 + (uint64_t)(i)) % 64)
+/* VERIF_FIN_BOUND: only the unit that PROVES the clause assumes the bound (it unwinds the roll-up loop);
+ * the clause itself is guarded by the bound, so users of the contract get it for small stacks only */
+#ifdef VERIF_FN_FINALIZE_BOUNDED
+#define VERIF_FIN_BOUND(h) ((h)->cv_stack_len <= VERIF_FIN_MAXSTACK)
+#else
+#define VERIF_FIN_BOUND(h) 1
+#endif
+#define FINALIZE_FN(seek)                                                                \
+  FN(__CPROVER_requires(out_len == 0 || VERIF_FIN_BOUND(self)))                          \
+  FN(__CPROVER_ensures((VW_IN(out, out_len) && self->cv_stack_len <= VERIF_FIN_MAXSTACK) ==> \
+       VW_AT(out) == VBYTE(VFIN_ROOT(self, VROOT_CTR(seek, VW_IDX(out))), VROOT_OFF(seek, VW_IDX(out)))))
+
 /* finalize: the hasher is not in the assigns clause (finalize is a pure query of it);
  * exactly out[0..out_len) is written; with out_len == 0 nothing is even required to be
  * a valid pointer (the function returns before any access). */
@@ -750,6 +796,7 @@ __CPROVER_requires(VERIF_GCPU_OK)
 __CPROVER_assigns(out_len > 0: __CPROVER_object_upto(out, out_len);
                   out_len > 0: g_cpu_features)
 __CPROVER_ensures(VERIF_GCPU_OK)
+FINALIZE_FN(seek)
 ;
 
 void blake3_hasher_finalize(const blake3_hasher *self, uint8_t *out, size_t out_len)
@@ -761,6 +808,7 @@ __CPROVER_requires(VERIF_GCPU_OK)
 __CPROVER_assigns(out_len > 0: __CPROVER_object_upto(out, out_len);
                   out_len > 0: g_cpu_features)
 __CPROVER_ensures(VERIF_GCPU_OK)
+FINALIZE_FN((uint64_t)0)
 ;
 
 /* reset == hasher_init_base(self->key, self->chunk.flags): every field except the (dead)
